@@ -140,27 +140,37 @@ Fixpoint bytes_ltb (a b : bytes) : bool :=
   | [], _ :: _ => true
   | x :: a', y :: b' => if x <? y then true else if y <? x then false else bytes_ltb a' b'
   end.
-Definition index := list (bytes * pos).
-Fixpoint idx_get (ix : index) (k : bytes) : option pos :=
-  match ix with
+(* an ordered association list keyed by byte strings (ascending key order) *)
+Section AMap.
+Context {V : Type}.
+Definition amap := list (bytes * V).
+Fixpoint amap_get (m : amap) (k : bytes) : option V :=
+  match m with
   | [] => None
-  | (k', p) :: r => if bytes_eqb k k' then Some p else idx_get r k
+  | (k', v) :: r => if bytes_eqb k k' then Some v else amap_get r k
   end.
-Fixpoint idx_put (ix : index) (k : bytes) (p : pos) : index * option pos :=
-  match ix with
-  | [] => ([(k, p)], None)
-  | (k', p') :: r =>
-    if bytes_eqb k k' then ((k, p) :: r, Some p')
-    else if bytes_ltb k k' then ((k, p) :: (k', p') :: r, None)
-    else let '(r', o) := idx_put r k p in ((k', p') :: r', o)
+Fixpoint amap_put (m : amap) (k : bytes) (v : V) : amap * option V :=
+  match m with
+  | [] => ([(k, v)], None)
+  | (k', v') :: r =>
+    if bytes_eqb k k' then ((k, v) :: r, Some v')
+    else if bytes_ltb k k' then ((k, v) :: (k', v') :: r, None)
+    else let '(r', o) := amap_put r k v in ((k', v') :: r', o)
   end.
-Fixpoint idx_del (ix : index) (k : bytes) : index * option pos :=
-  match ix with
+Fixpoint amap_del (m : amap) (k : bytes) : amap * option V :=
+  match m with
   | [] => ([], None)
-  | (k', p') :: r =>
-    if bytes_eqb k k' then (r, Some p')
-    else let '(r', o) := idx_del r k in ((k', p') :: r', o)
+  | (k', v') :: r =>
+    if bytes_eqb k k' then (r, Some v')
+    else let '(r', o) := amap_del r k in ((k', v') :: r', o)
   end.
+End AMap.
+Arguments amap V : clear implicits.
+
+Definition index := amap pos.
+Definition idx_get (ix : index) (k : bytes) : option pos := amap_get ix k.
+Definition idx_put (ix : index) (k : bytes) (p : pos) : index * option pos := amap_put ix k p.
+Definition idx_del (ix : index) (k : bytes) : index * option pos := amap_del ix k.
 
 (* hint file: (key, position in the merged files) entries, framed like records *)
 Record hfile := mkHf { hf_recs : list (bytes * pos); hf_size : N; hf_phys : N }.
